@@ -405,8 +405,10 @@ func culprit(ref, it []stepRec) (op byte, depth int, ok bool) {
 	if i < n {
 		a, b := ref[i], it[i]
 		if a.Depth == b.Depth && a.PC == b.PC && a.Op == b.Op {
-			if a.Fault != b.Fault {
-				return a.Op, a.Depth, true // the instruction itself is accepted by one side only
+			// (a faulting step is captured before its memory expansion, an accepted one after it:
+			// memory is only comparable between two steps of the same kind)
+			if a.SLen == b.SLen && a.Top == b.Top && (a.Fault != b.Fault || a.Mem == b.Mem) {
+				return a.Op, a.Depth, true // same machine state, but only one side accepts the instruction
 			}
 			// same instruction about to run on different data: blame the previous instruction of this frame
 			for j := i - 1; j >= 0; j-- {
